@@ -1,8 +1,7 @@
 // SPDX-License-Identifier: MIT OR Apache-2.0
 
 use std::collections::HashMap;
-use std::sync::Arc;
-use std::sync::atomic::AtomicUsize;
+use std::sync::{Arc, Mutex, MutexGuard};
 
 use futures_util::{Stream, StreamExt};
 use p2panda_core::Topic;
@@ -154,18 +153,18 @@ impl Gossip {
         // have been dropped and we didn't clean up yet. In this case we'll ignore the existing
         // entry in "senders" and continue to create a new gossip session, overwriting the "dead"
         // entries.
+        //
+        // Checking the counter and taking the new reference is a single step: a last handle
+        // dropped concurrently can not leave us with a reference to an overlay we already left.
         if let Some((to_gossip_tx, from_gossip_tx, guard)) = self.senders.read().await.get(&topic)
-            && guard.has_subscriptions()
+            && let Some(guard) = guard.try_clone()
         {
-            #[cfg(p2panda_p2panda_verif)]
-            p2panda_core::verif::point("gossip.stream.after_liveness_check").await;
-
             return Ok(GossipHandle::new(
                 topic,
                 max_message_size,
                 to_gossip_tx.clone(),
                 from_gossip_tx.clone(),
-                guard.clone(),
+                guard,
             ));
         }
 
@@ -281,7 +280,7 @@ impl GossipSubscription {
 #[cfg(p2panda_p2panda_verif)]
 impl TopicDropGuard {
     fn verif_counter(&self) -> (usize, usize) {
-        (Arc::as_ptr(&self.counter) as usize, self.counter())
+        (Arc::as_ptr(&self.counter) as *const () as usize, self.counter())
     }
 }
 
@@ -448,10 +447,14 @@ impl Stream for GossipSubscription {
 ///
 /// Check if we can unsubscribe from topic if all handles and subscriptions have been dropped for
 /// it. The gossip overlay will be left then for this topic.
+///
+/// The counter lives behind a mutex which is also held while the "unsubscribe" message is handed
+/// to the gossip actor: whoever observes a counter of zero can rely on that message being in the
+/// actor's inbox already, a "subscribe" sent afterwards is processed after it.
 #[derive(Debug)]
 struct TopicDropGuard {
     topic: Topic,
-    counter: Arc<AtomicUsize>,
+    counter: Arc<Mutex<usize>>,
     actor_ref: ActorRef<ToGossipManager>,
     ignore_drop: bool,
 }
@@ -473,20 +476,49 @@ impl TopicDropGuard {
 
         Self {
             topic,
-            counter: Arc::new(AtomicUsize::new(INITIAL_COUNTER)),
+            counter: Arc::new(Mutex::new(INITIAL_COUNTER)),
             actor_ref,
             ignore_drop: false,
         }
     }
 
-    /// Returns current number of references to this topic.
-    fn counter(&self) -> usize {
-        self.counter.load(std::sync::atomic::Ordering::SeqCst)
+    fn lock_counter(&self) -> MutexGuard<'_, usize> {
+        // The counter is a plain number, it is consistent even if a thread panicked holding it.
+        self.counter
+            .lock()
+            .unwrap_or_else(|poisoned| poisoned.into_inner())
     }
 
-    /// Returns true if there's still one or more references for this topic used.
-    fn has_subscriptions(&self) -> bool {
-        self.counter() >= INITIAL_COUNTER
+    /// Returns current number of references to this topic.
+    #[cfg_attr(not(any(test, p2panda_p2panda_verif)), allow(dead_code))]
+    fn counter(&self) -> usize {
+        *self.lock_counter()
+    }
+
+    /// Clone guard and increment the reference counter if there's still one or more references
+    /// for this topic used, otherwise return `None`.
+    ///
+    /// Both happens in one step, the counter can not drop to zero in between.
+    fn try_clone(&self) -> Option<Self> {
+        let mut counter = self.lock_counter();
+        if *counter < INITIAL_COUNTER {
+            return None;
+        }
+        *counter += 1;
+
+        trace!(
+            topic = self.topic.fmt_short(),
+            counter = *counter,
+            actor_id = %self.actor_ref.get_id(),
+            "clone topic drop guard +1"
+        );
+
+        Some(Self {
+            topic: self.topic,
+            counter: self.counter.clone(),
+            actor_ref: self.actor_ref.clone(),
+            ignore_drop: false,
+        })
     }
 
     /// Clone guard, but don't increment reference counter.
@@ -505,13 +537,15 @@ impl TopicDropGuard {
 
 impl Clone for TopicDropGuard {
     fn clone(&self) -> Self {
-        let value = self
-            .counter
-            .fetch_add(1, std::sync::atomic::Ordering::SeqCst);
+        let value = {
+            let mut counter = self.lock_counter();
+            *counter += 1;
+            *counter
+        };
 
         trace!(
             topic = self.topic.fmt_short(),
-            counter = value + 1,
+            counter = value,
             actor_id = %self.actor_ref.get_id(),
             "clone topic drop guard +1"
         );
@@ -534,23 +568,21 @@ impl Drop for TopicDropGuard {
 
         // Check if we can unsubscribe from topic if all handles and subscriptions have been
         // dropped for it.
-        let previous_counter = self
-            .counter
-            .fetch_sub(1, std::sync::atomic::Ordering::SeqCst);
-
-        #[cfg(p2panda_p2panda_verif)]
-        p2panda_core::verif::point_blocking("gossip.guard.drop.after_fetch_sub");
+        //
+        // The counter stays locked until the message is sent, see struct documentation.
+        let mut counter = self.lock_counter();
+        *counter -= 1;
 
         trace!(
             topic = self.topic.fmt_short(),
-            counter = previous_counter - 1,
+            counter = *counter,
             actor_id = %self.actor_ref.get_id(),
             "drop topic drop guard -1"
         );
 
-        // If the previous value is equal the initial value, the last instance of the guard was
-        // dropped and the counter has no references to the topic anymore.
-        let no_references_left = previous_counter == INITIAL_COUNTER;
+        // If the counter arrived at zero, the last instance of the guard was dropped and there
+        // are no references to the topic anymore.
+        let no_references_left = *counter < INITIAL_COUNTER;
 
         if no_references_left {
             trace!(
